@@ -486,12 +486,25 @@ def build(tier, seed):
             if not (isinstance(r, tuple) and all(isinstance(x, tuple) for x in r)):
                 return False
             flat = [i for grp in r for i in grp]
-            return sorted(flat) == list(range(n)) and all(len(grp) > 0 for grp in r)
+            if not (sorted(flat) == list(range(n)) and all(len(grp) > 0 for grp in r)):
+                return False
+            if o.grouping_type != "anticommuting":
+                return True
+            # observables without wires commute with everything: under 'anticommuting' two of them never share a group
+            obs = o.observables.items if isinstance(o.observables, PyList) else o.observables
+
+            def wireless(i):
+                w_ = obs[i].f["wires"] if isinstance(obs[i], Rec) else obs[i].wires
+                return (z3.Length(w_.term) == 0) if isinstance(w_, SeqV) else (len(w_) == 0)
+            if is_symbolic(obs) and not all(isinstance(wireless(i), bool) for i in range(n)):
+                allw = And(*[wireless(i) for i in range(n)], True)
+                return Implies(allw, all(len(grp) == 1 for grp in r))
+            return (not all(wireless(i) for i in range(n))) or all(len(grp) == 1 for grp in r)
 
         wc.stub_realize["Obs"] = lambda f: qp.Identity() if not f.get("wires") else qp.Z(len(f["wires"]))
         contracts.append(FnContract(wc, "compute_partition_indices", [
-            Case(f"N={n}-observables/method=lf", {"observables": ListT(RecT("Obs"), n), "grouping_type": T("const", "qwc"), "method": T("const", "lf")},
-                 ghost=cpi_ghost, ensures=cpi_post, size_bounded=True)]))
+            Case(f"N={n}-observables/{gt}/method=lf", {"observables": ListT(RecT("Obs"), n), "grouping_type": T("const", gt), "method": T("const", "lf")},
+                 ghost=cpi_ghost, ensures=cpi_post, size_bounded=True) for gt in TYPES]))
 
     # _partition_coeffs: first-match loop; observables / partition members are abstract items with an identity class, coefficients distinct tokens
     wp = mk_world(1)
